@@ -2,6 +2,7 @@ package main
 
 import (
 	"fmt"
+	"strconv"
 	"go/types"
 	"math/big"
 
@@ -117,6 +118,72 @@ func (ex *Exec) specialise(st *State, e SExpr) {
 	}
 }
 
+// verifySpecLemma proves a statement over bounded integers from its
+// requires to its ensures (no code involved).
+func (ex *Exec) verifySpecLemma(c *Contract, pkg *types.Package, anyFn *ssa.Function) {
+	ex.top, ex.topC = anyFn, c
+	ex.lemmaKey = c.Key
+	st := newState(ex)
+	st.declare("alloc0", SortInt)
+	st.allocCtr = mkTerm("alloc0", SortInt)
+	if c.Mode == "bvbridge" {
+		st.emit(";;mode bvbridge")
+	}
+	ex.topParams = map[string]Val{}
+	for _, sv := range c.SpecVars {
+		sym := "l_" + mangle(sv[0])
+		st.declare(sym, SortInt)
+		x := mkTerm(sym, SortInt)
+		w, _ := strconv.Atoi(sv[1])
+		if w <= 0 {
+			w = 64
+		}
+		st.assume(And(Le(IntLit(0), x), Lt(x, BigLit(pow2(w)))))
+		ex.topParams[sv[0]] = TV(x, types.Typ[types.Int])
+	}
+	ex.entry = st.snapshot()
+	fr0 := &Frame{fn: anyFn, contract: c, depth: 0, params: ex.topParams}
+	env := &Env{ex: ex, st: st, old: ex.entry, vars: map[string]Val{}, fr: fr0, pkg: pkg}
+	for _, r := range c.Requires {
+		t, err := ex.evalSpecBool(r.Expr, env)
+		if err != nil {
+			ex.errors = append(ex.errors, fmt.Sprintf("requires %s: %v", r.Label, err))
+			continue
+		}
+		st.assume(t)
+	}
+	ex.cover(st, "pre")
+	ex.exitPaths++
+	ex.cover(st, "exit")
+	for _, e := range c.Ensures {
+		if c.Mode == "bv" {
+			// pure QF_BV statement: translated directly, no Int/array context
+			raw, err := bvLemmaScript(ex.db, c, e.Expr)
+			if err != nil {
+				ex.errors = append(ex.errors, fmt.Sprintf("ensures %s: %v", e.Label, err))
+				continue
+			}
+			if !ex.active(e.Props) {
+				continue
+			}
+			props := e.Props
+			if len(props) == 0 && ex.prop != "" {
+				props = []string{ex.prop}
+			}
+			ck := &Check{Name: fmt.Sprintf("%s/lemma#%s", c.Key, e.Label), Class: "lemma", Fn: c.Key, Props: props, Goal: "false", Info: e.Text + "  (QF_BV)", Src: e.Src, Raw: raw, TimeoutMs: c.TimeoutMs}
+			st.script = append(st.script, Cmd{Check: ck})
+			continue
+		}
+		t, err := ex.evalSpecBool(e.Expr, env)
+		if err != nil {
+			ex.errors = append(ex.errors, fmt.Sprintf("ensures %s: %v", e.Label, err))
+			continue
+		}
+		ex.check(st, fr0, "lemma", e.Label, t, e.Props, e.Text, e.Src)
+	}
+	ex.endPath(st, "lemma")
+}
+
 func (ex *Exec) verifyFunc(fn *ssa.Function, c *Contract) {
 	ex.top, ex.topC = fn, c
 	frameStack = nil
@@ -124,6 +191,9 @@ func (ex *Exec) verifyFunc(fn *ssa.Function, c *Contract) {
 	st.declare("alloc0", SortInt)
 	st.allocCtr = mkTerm("alloc0", SortInt)
 	st.assume(Ge(st.allocCtr, IntLit(1)))
+	if c.Mode == "bvbridge" {
+		st.emit(";;mode bvbridge")
+	}
 	ex.topParams = map[string]Val{}
 	hasRecv := fn.Signature.Recv() != nil
 	for i, p := range fn.Params {
